@@ -23,6 +23,7 @@ message_reader.go (D14 belongs to C02; the driver counts panics on cut fetch res
 -/
 import KafkaVerif.Props.C11
 import KafkaVerif.Lemmas.TransportConn
+import KafkaVerif.Props.C02
 
 namespace KV.C17
 open KV KV.Reader KV.ConnOps
@@ -187,5 +188,29 @@ theorem transport_examples :
              .new 2 0, .recv 2, .done 2 true false, .release 2 true, .closeIdle 0, .exit 2]).isSome = true ∧
     run [] [.new 1 0, .recv 1, .done 1 false false, .release 1 true] = none ∧
     run [] [.new 1 0, .recv 1, .done 1 false true, .release 1 true, .grab 1] ≠ none := by decide
+
+/-! ### inside the message set: no cut makes the fetch path panic (as far as the C02 decoder model reaches)
+
+`fetch_cut_is_error` above treats message_reader.go as "any byte-conserving reader".  The C02 builder's model of that
+reader (Model/MessageSetReader.lean: readHeader / readMessageV2 / markRead / Batch.readMessage as a token machine,
+`Variant.fixed` = the code after the D4/D14/D15 fixes) has `Outcome.desync` for "parses bytes of one kind as another /
+`panic: markRead: negative count`".  A connection lost after k bytes of the message set presents the decoder with
+exactly the token stream `truncate (allTokens items) k` of Spec/Layout.lean (complete tokens, then a token on which
+the next `read*` fails — with io.EOF / io.ErrUnexpectedEOF instead of errShortRead, which changes only how the batch
+*ends*, i.e. the part modelled by `fetchRead`, not which statements ran before).  Instantiating C02's
+`single_fetch_partial`: for every log layout made of v2 batches (plain or compressed, compaction holes, retained empty
+batches, gaps), every cut position k and every fetch offset, the decoder does not panic / desynchronise and hands out
+exactly the completely received records at or after the fetch offset — a prefix of what was sent, never fabricated
+data.  v0/v1 message sets: observed by the driver on every cut only (as in C02). -/
+
+open KV.C02 in
+theorem fetch_cut_no_panic_v2 (items : List Item) (nb : Int) (hnb : 0 ≤ nb) (hwf : V2WF nb items)
+    (o hwm : Int) (ho : 0 ≤ o) (hne : hwm ≠ o) (k : Nat) (expired : Bool) :
+    (readAll .fixed expired o hwm (truncate (allTokens items) k)).2.2 ≠ .desync ∧
+    (readAll .fixed expired o hwm (truncate (allTokens items) k)).1 = (contained items k).filter (fun r => o ≤ r.1) := by
+  have h := single_fetch_partial items nb hnb hwf o hwm ho hne (k : Int) expired
+  have hk : ¬ ((k : Int) < 0) := by omega
+  simp only [responseTokens, containedRecords, hk, if_false, Int.toNat_natCast] at h
+  exact ⟨h.2.1, h.1⟩
 
 end KV.C17
